@@ -6,6 +6,7 @@ Theorem C32_fibonacci_lucas :
   nt_fibonacci n = fib (Z.to_nat n) /\
   nt_fibonacci2 n = (fib (Z.to_nat n), fib (S (Z.to_nat n)) - fib (Z.to_nat n)) /\
   nt_lucas n = lucas (Z.to_nat n) /\
-  (1 <= n -> nt_lucas2 n = Ok (lucas (Z.to_nat n), lucas (Z.to_nat (n - 1)))).
+  (1 <= n -> nt_lucas2 n = Ok (lucas (Z.to_nat n), lucas (Z.to_nat (n - 1)))) /\
+  (n = 0 -> nt_lucas2 n = Ok (2, -1)).
 Proof. exact fibonacci_lucas_correct. Qed.
 Print Assumptions C32_fibonacci_lucas.
